@@ -391,6 +391,26 @@ def check_tree(method, form, names, metric, want_groups, acc, case, root_height=
         acc.fail(f"{sig0}: returned {type(tree).__name__}", case, {"value": str(tree)[:300]})
         return
     newick = tree.get_newick(with_distances=True)
+    if form in ("dict", "DistanceMatrix"):
+        # the distances given to the tree builder are an input, not scratch space: the same object must give the same
+        # tree again and must still hold the generating matrix (a seeded change made upgma() consume its argument)
+        try:
+            from cogent3.cluster.UPGMA import upgma
+            from cogent3.evolve.fast_distance import DistanceMatrix
+            from cogent3.phylo.nj import nj
+
+            arg = DistanceMatrix(dists) if form == "DistanceMatrix" else dict(dists)
+            fn = (lambda a: nj(a, show_progress=False)) if method == "nj" else upgma
+            before = {k: float(v) for k, v in (arg.to_dict() if hasattr(arg, "to_dict") else arg).items()}
+            first = fn(arg).get_newick(with_distances=True)
+            after = {k: float(v) for k, v in (arg.to_dict() if hasattr(arg, "to_dict") else arg).items()}
+            second = fn(arg).get_newick(with_distances=True)
+            if after != before:
+                acc.fail(f"{sig0}: the distance matrix passed in was modified", case, {"before": str(before)[:200], "after": str(after)[:200]})
+            elif second != first:
+                acc.fail(f"{sig0}: a second call on the same matrix object returns a different tree", case, {"first": first, "second": second})
+        except Exception as e:  # noqa: BLE001
+            acc.fail(f"{sig0}: re-using the distance matrix object raised {type(e).__name__}", case, {"error": str(e)[:300]})
     if sorted(tips) != sorted(names):
         acc.fail(f"{sig0}: tip names", case, {"got": tips, "want": names, "tree": newick})
         return
@@ -440,7 +460,7 @@ def check_tree(method, form, names, metric, want_groups, acc, case, root_height=
 
 NJ_FORMS_MAIN = ("dict",)
 NJ_FORMS_ALL = ("dict", "upper", "lower-first", "DistanceMatrix", "quick_tree", "app")
-UPGMA_FORMS_ALL = ("dict", "upper", "lower-first")
+UPGMA_FORMS_ALL = ("dict", "upper", "lower-first", "DistanceMatrix")
 
 
 def nj_case(n, tree, lens, forms, acc):
